@@ -361,6 +361,38 @@ def run_reply_concurrent(case) -> dict:
             "probes": probes, "vtime_ns": world.stats.get("vtime_ns", 0)}
 
 
+def run_first_use_threads(case) -> dict:
+    """["tfirst", seed, policy]: 2..3 caller threads make the process's FIRST GetKey calls at the same time (sync API, full
+    conversation against the reference DC, which decodes every request independently: sealing, padding, verification trailer).
+    Run through ["fresh", ...] in a new interpreter."""
+    from checks import offline, plan as P
+
+    _, seed, policy = case
+    r = random.Random(seed)
+    sid = offline.SID_A
+    ops = [{"op": "protect", "fl": "thread", "group": 1, "sid": sid, "rk": None, "net": "online", "data": 5 + j, "cache": "fresh"} for j in range(2 + seed % 2)]
+    plan = {"seed": seed, "clock_ft": gkdi.interval_start_filetime(370, 4, 9) + seed % 1000, "root_keys": [[3, "SHA256", ("DH", "ECDH_P256")[seed % 2]]],
+            "caller_sids": [sid], "ctx": {"kind": "stub", "legs": 2, "sig": r.choice((16, 28))}, "dc": {"pad_mode": r.choice(("min16", "min4"))}, "ops": ops, "threads": policy}
+    tr = P.execute_plan(plan)
+    viol = None
+    if tr.dc.all_violations:
+        viol = common.violation("C13", "request-framing", "threads", "receiver-rejects-request", "", "first-use",
+                                f"the reference DC could not decode a request of {len(ops)} concurrent first calls: {tr.dc.all_violations[:2]}")
+    else:
+        want = rpce.syntax_bytes(rpce.ISD_KEY_IF) + rpce.syntax_bytes(rpce.NDR64)
+        for g in tr.dc.getkey_log:
+            vt = g.get("vt") or []
+            if [(c, f) for c, f, _v in vt] != [(rpce.VT_PCONTEXT, rpce.VT_END)] or vt[0][2] != want:
+                viol = common.violation("C13", "request-framing", "threads", "verification-trailer", "", "first-use", f"verification trailer of a concurrent first call is not PCONTEXT(ISD_KEY, NDR64)|END: {vt}")
+                break
+        for ot in tr.ops:
+            if viol is None and ot.outcome.kind != "ok":
+                viol = common.violation("C13", "request-framing", "threads", drive.exc_sig(ot.outcome)[0], drive.exc_sig(ot.outcome)[1], "first-use",
+                                        f"a call that succeeds alone failed while other threads made their first calls: {ot.outcome.exc!r}")
+    return {"viol": viol, "digest": tr.world.digest(), "key": common.key_hash(case), "fired": {"thread_preemptions": tr.world.stats.get("tswitch", 0)},
+            "probes": {"thread_overlap": tr.world.stats.get("toverlap", 0)}, "vtime_ns": 0}
+
+
 class C13(common.Check):
     id = "C13"
     level = "exploration"
@@ -371,7 +403,7 @@ class C13(common.Check):
             "reply path: GetKey replies from the reference DC whose envelope length sweeps every residue (DH key_length 5..12 incl. odd, "
             "domain/forest name lengths 0..7, seed and public-key replies) x server padding policy {pad to 16, pad to 4, extra 4k, exactly K for K in 0..15} so that "
             "pad_length 0..15 all occur; pairs of async GetKey calls in flight at once with replies of different lengths delivered in PRNG segments (NDR64 GetKey stubs are always 4-aligned, so K % 4 != 0 only arises from a lenient server: there a "
-            "raised error is tolerated, a wrong envelope never is). Non-trivial = every case (each has a distinct length residue/knob combination); distinct = "
+            "raised error is tolerated, a wrong envelope never is); 2..3 caller threads making the first GetKey calls of a new interpreter at once (one child process per case; the reference DC decodes sealing, padding and verification trailer of every request). Non-trivial = every case (each has a distinct length residue/knob combination); distinct = "
             "distinct parameter tuple.")
     components = {"client": "real (RpcClient._create_request/_prepare_pdu/_process_response, AuthenticationProvider.wrap/unwrap, "
                             "_process_get_key_result, GetKey.unpack_response)",
@@ -379,7 +411,7 @@ class C13(common.Check):
                   "DC": "model (RefDC)", "transport": "simulated"}
     assumptions = ["the quantifier is a parameter grid; what the simulation contributes is the second party (independent receiver, recording context)",
                    "alloc_hint is recorded, not judged"]
-    required_fired = tuple(f"reply_pad_{k}" for k in range(16)) + ("hs_1_auth_1", "hs_0_auth_1", "hs_0_auth_0", "hs_2_auth_1", "hs_3_auth_1", "hs_4_auth_1", "requests_on_one_connection", "seq_connections", "concurrent_replies", "alloc_hint_unpadded", "alloc_hint_zero", "sig_sizes_differ")
+    required_fired = tuple(f"reply_pad_{k}" for k in range(16)) + ("hs_1_auth_1", "hs_0_auth_1", "hs_0_auth_0", "hs_2_auth_1", "hs_3_auth_1", "hs_4_auth_1", "requests_on_one_connection", "seq_connections", "concurrent_replies", "alloc_hint_unpadded", "alloc_hint_zero", "sig_sizes_differ", "first_calls_from_threads_in_new_process")
 
     def exhaustive(self, tier):
         return True
@@ -388,6 +420,11 @@ class C13(common.Check):
 
     def cases(self, tier, seed):
         out = []
+        # the process's first GetKey calls, made by 2..3 caller threads at once (one child interpreter per case)
+        rngf = prng.stream(seed, "C13", "first-use")
+        for k in range(160 if tier == "quick" else 4000):
+            pol = {"mode": "prob", "p": (0.05, 0.15, 0.3, 0.5)[k % 4]} if k % 3 else {"mode": "marks", "q": (0.3, 0.7)[(k // 3) % 2], "p": (0.02, 0.1)[(k // 6) % 2]}
+            out.append(["fresh", ["tfirst", rngf.getrandbits(30), pol]])
         nmax = 320 if tier == "quick" else 1200
         for fl in ("sync", "async"):
             for n in range(0, nmax + 1):
@@ -431,6 +468,13 @@ class C13(common.Check):
         return out
 
     def run_case(self, case):
+        if case[0] == "tfirst":
+            return run_first_use_threads(case)
+        if case[0] == "fresh":
+            v = common.run_case_fresh("C13", case[1])
+            if v:
+                v = {"sig": v["sig"] + "/new-process", "detail": "first calls of a new process: " + v["detail"]}
+            return {"viol": v, "digest": "fresh:" + (v["sig"] if v else "ok"), "key": common.key_hash(case), "fired": {}, "probes": {"first_calls_from_threads_in_new_process": 1}, "vtime_ns": 0}
         if case[0] == "req":
             return run_request_case(case)
         if case[0] == "seq":
@@ -440,6 +484,8 @@ class C13(common.Check):
         return run_reply_case(case)
 
     def shrink(self, case):
+        if case[0] in ("fresh", "tfirst"):
+            return
         if case[0] == "req" and len(case) > 7:
             if len(case[7]) > 1:
                 yield case[:7] + [case[7][:1]]
@@ -471,6 +517,8 @@ class C13(common.Check):
                 yield ["reply", fl, kl, dlen, 0, pad_mode, sig, member]
 
     def sample_repr(self, case, res):
+        if case[0] in ("fresh", "tfirst"):
+            return {"kind": "first GetKey calls of a new process from caller threads", "case": case}
         if case[0] == "req":
             return dict(zip(("kind", "flavour", "stub_len", "vt_variant", "sig_size", "header_sign", "authenticated", "further_requests_on_the_connection"), case))
         if case[0] == "seq":
